@@ -10,6 +10,7 @@ package c19
 
 import (
 	"bytes"
+	"compress/zlib"
 	crand "crypto/rand"
 	"errors"
 	"fmt"
@@ -27,12 +28,19 @@ import (
 	"seehuhn.de/go/pdf/zzverif/engine/ev"
 	"seehuhn.de/go/pdf/zzverif/engine/explore"
 	"seehuhn.de/go/pdf/zzverif/ref/pdffile"
+	"seehuhn.de/go/pdf/zzverif/ref/pdfsyn"
 )
 
 // ---------------------------------------------------------------------------
 // documents
 
 type docSpec struct {
+	// Hand selects a document written by the independent serialiser
+	// (ref/pdffile) instead of the library's Writer: "indirect-parms" (a
+	// Flate + PNG-Up stream whose /Length, /Filter and /DecodeParms are all
+	// indirect objects), "no-length-crlf" (a stream without /Length whose data
+	// ends in CR and is followed by CR LF), "wrong-length" (/Length 7 too large).
+	Hand string `json:"hand,omitempty"`
 	// RawEnd, if not 0, asks for a content stream whose stored (possibly
 	// encrypted) bytes end in this byte: CR or LF at the end of the raw data is
 	// what makes a wrong guess about the stream's extent lose a byte.
@@ -89,7 +97,67 @@ func (d *detRand) Read(p []byte) (int, error) {
 
 var buildMu sync.Mutex
 
+func deflateBytes(b []byte) []byte {
+	var buf bytes.Buffer
+	zw := zlib.NewWriter(&buf)
+	zw.Write(b)
+	zw.Close()
+	return buf.Bytes()
+}
+
+// buildHandDoc writes a document with ref/pdffile's serialiser.
+func buildHandDoc(spec docSpec) (*document, error) {
+	iv := func(v pdfsyn.Value) *pdfsyn.Value { return &v }
+	rows := 20
+	plain := noise(rows*8, 5)
+	// PNG "Up" rows (tag 2), 8 columns
+	var filtered []byte
+	prev := make([]byte, 8)
+	for r := 0; r < rows; r++ {
+		row := plain[r*8 : (r+1)*8]
+		filtered = append(filtered, 2)
+		for i := range row {
+			filtered = append(filtered, row[i]-prev[i])
+		}
+		prev = row
+	}
+	objs := []pdffile.ObjDef{
+		{Num: 1, Val: pdfsyn.DictV("Type", pdfsyn.NameV("Catalog"), "Pages", pdfsyn.RefV(2, 0))},
+		{Num: 2, Val: pdfsyn.DictV("Type", pdfsyn.NameV("Pages"), "Kids", pdfsyn.ArrV(pdfsyn.RefV(3, 0)), "Count", pdfsyn.IntV(1))},
+		{Num: 3, Val: pdfsyn.DictV("Type", pdfsyn.NameV("Page"), "Parent", pdfsyn.RefV(2, 0), "Contents", pdfsyn.RefV(4, 0))},
+	}
+	k := pdffile.Knobs{Version: "1.7"}
+	switch spec.Hand {
+	case "indirect-parms":
+		raw := deflateBytes(filtered)
+		objs = append(objs,
+			pdffile.ObjDef{Num: 4, Val: pdfsyn.DictV("Note", pdfsyn.StrV("stream dictionary string"), "Filter", pdfsyn.RefV(6, 0), "DecodeParms", pdfsyn.RefV(7, 0)), Stream: raw, LengthOverride: iv(pdfsyn.RefV(5, 0))},
+			pdffile.ObjDef{Num: 5, Val: pdfsyn.IntV(int64(len(raw)))},
+			pdffile.ObjDef{Num: 6, Val: pdfsyn.NameV("FlateDecode")},
+			pdffile.ObjDef{Num: 7, Val: pdfsyn.DictV("Predictor", pdfsyn.IntV(12), "Columns", pdfsyn.IntV(8))})
+	case "no-length-crlf":
+		k.EOL = 1
+		objs = append(objs, pdffile.ObjDef{Num: 4, Val: pdfsyn.DictV("Note", pdfsyn.StrV("stream dictionary string")), Stream: []byte("hello world, this data ends in a carriage return\r"), NoLength: true})
+	case "wrong-length":
+		data := []byte("data of a stream whose declared length is seven bytes too large\n")
+		objs = append(objs, pdffile.ObjDef{Num: 4, Val: pdfsyn.DictV("Note", pdfsyn.StrV("stream dictionary string")), Stream: data, LengthOverride: iv(pdfsyn.IntV(int64(len(data) + 7)))})
+	default:
+		return nil, fmt.Errorf("unknown hand-built document %q", spec.Hand)
+	}
+	objs = append(objs, pdffile.ObjDef{Num: 8, Val: pdfsyn.StrV("the object after the stream")})
+	rev := pdffile.Revision{Kind: "table", Objs: objs, Trailer: []pdfsyn.Entry{{Key: []byte("Root"), Val: pdfsyn.RefV(1, 0)}}}
+	d := &document{spec: spec, data: pdffile.Write([]pdffile.Revision{rev}, k)}
+	for _, n := range []uint32{2, 3, 4, 8} {
+		d.refs = append(d.refs, pdf.NewReference(n, 0))
+	}
+	d.streams = []pdf.Reference{pdf.NewReference(4, 0)}
+	return d, nil
+}
+
 func buildDoc(spec docSpec) (*document, error) {
+	if spec.Hand != "" {
+		return buildHandDoc(spec)
+	}
 	if spec.RawEnd == 0 {
 		return buildDocSeed(spec, 0)
 	}
@@ -241,6 +309,9 @@ func docSpecs(thorough bool) []docSpec {
 	out = append(out, docSpec{Name: "aes128-raw-ends-LF", V: pdf.V1_7, Filter: 1, User: "secret", RawEnd: '\n'},
 		docSpec{Name: "aes128-raw-ends-CR", V: pdf.V1_6, Filter: 0, User: "secret", RawEnd: '\r'},
 		docSpec{Name: "plain-raw-ends-LF", V: pdf.V1_4, Filter: 0, RawEnd: '\n'})
+	out = append(out, docSpec{Name: "handbuilt-indirect-length-filter-parms", V: pdf.V1_7, Hand: "indirect-parms"},
+		docSpec{Name: "handbuilt-no-length-data-ends-CR", V: pdf.V1_7, Hand: "no-length-crlf"},
+		docSpec{Name: "handbuilt-wrong-length", V: pdf.V1_7, Hand: "wrong-length"})
 	add("table-human", pdf.V1_7, true, 1, "")
 	add("table-rc4", pdf.V1_4, false, 1, "secret")
 	add("xrefstream-aes128", pdf.V1_7, false, 2, "secret")
@@ -647,7 +718,7 @@ type WriteCase struct {
 }
 
 func writeEnv(k int, only bool, calls *int, sentinel error) *wprog.Env {
-	return &wprog.Env{BigBodies: true, WrapSink: func(w io.Writer, seekable bool) io.Writer {
+	return &wprog.Env{BigBodies: true, SmallValues: true, WrapSink: func(w io.Writer, seekable bool) io.Writer {
 		fs := faultySink{w: w, calls: calls, k: k, only: only, err: sentinel}
 		if seekable {
 			return &faultySeekSink{fs}
